@@ -2,6 +2,7 @@ mod bridge;
 mod gen;
 mod orch;
 mod p_flow;
+mod p_http;
 mod p_hist;
 mod p_ls;
 mod p_nbh;
@@ -22,6 +23,7 @@ fn case_fn_for(prop: &str) -> CaseFn {
         "C08" => p_ls::case,
         "C11" => p_nbh::case,
         "C16" => p_pipe::case,
+        "C18" => p_http::case,
         "C12" => p_tour::case,
         "C14" => p_flow::case,
         "C15" => p_trans::case,
@@ -85,6 +87,16 @@ fn spec_for(prop: &str, tier: &str, seed: u64) -> RunSpec {
             s.cpu_budget_s = 60.0;
             s.min_nontrivial = 10;
         }
+        "C18" => {
+            s.rule = "scenarios against the real server binary on an ephemeral port (one process per scenario): 4-64 concurrent std::net client threads released by a barrier mix GET /health, POST /solve with fresh uniquely tagged valid instances (pre-screened by an isolated dry run; a third of them large), and the fixed list of fault kinds (not JSON, truncated JSON, wrong content type, empty body, 5 MB garbage, dribbled body, disconnect mid-body, missing field, dangling reference, bad timestamp, matrix mismatch, unknown route, wrong method) with seeded delays; the history is recorded at the client boundary from one monotonic clock (a request without a response stays open) and judged offline: health = 200 Healthy, every answered valid solve carries exactly its own departure segments and passes the C01-C05/C07 oracles for its own input, faults never yield a schedule, the process is alive and answers a health and a solve probe after the burst. non-trivial = distinct interleaving signatures of scenarios in which >= 2 valid solves overlapped each other and >= 1 overlapped a request that panics inside the handler".to_string();
+            s.level = "fault_enumeration".to_string();
+            s.cases = if thorough { 400 } else { 32 };
+            s.workers = 8;
+            s.cpu_budget_s = 900.0;
+            s.min_nontrivial = 4;
+            s.rayon_threads = vec![2];
+            s.extra_coverage.insert("fault_kinds".into(), serde_json::json!(["not_json", "truncated_json", "wrong_content_type", "empty_body", "garbage_5mb", "dribbled_body", "disconnect_mid_body", "missing_field", "dangling_reference", "bad_timestamp", "matrix_mismatch", "unknown_route", "wrong_method"]));
+        }
         "C12" => {
             let fam = p_tour::family_chunks(thorough);
             s.rule = format!("direct calls of Tour::insert_path/remove/sub_path/conflict/check_removable on tours obtained through Schedule::tour_of, compared with the reference insert/remove semantics. Bounded family: 2 locations, 5 time slots, activities of 1-2 slots, <= 3 non-depot nodes (trips, slots), dead-head 0-2 slots per direction, shunting 0/1 slots, forbid on/off = {} networks ({} with <= 2 nodes); in each network every chain as real and as dummy tour x every chain as path (4 depot variants) x every segment. quick: all networks with <= 2 nodes + 60 seeded chunks of the 3-node part + random networks; thorough: the whole family + random networks up to 12 nodes. non-trivial = distinct (network, tour, argument) triples where a node was dropped, a time tie exists between argument and tour, or a removal had to be refused", p_tour::family_size(), p_tour::family_size_le2());
@@ -139,6 +151,77 @@ fn main() {
                 }
             }
             std::process::exit(orch::run(&spec));
+        }
+        "replay" => {
+            // vmon replay <ID> <witness file>: re-execute the recorded case against the current tree
+            let prop = &args[2];
+            let w: serde_json::Value = serde_json::from_str(&std::fs::read_to_string(&args[3]).expect("read witness")).expect("witness json");
+            let tier = w["tier"].as_str().unwrap_or("quick").to_string();
+            let seed = w["seed"].as_u64().unwrap_or(1);
+            let case = w["case"].as_u64().expect("case");
+            let variant = w["variant"].as_str().unwrap_or("release").to_string();
+            let recorded: Vec<String> = w["violations"].as_array().map(|a| a.iter().filter_map(|v| v["signature"].as_str().map(|s| s.to_string())).collect()).unwrap_or_default();
+            println!("recorded: property={} tier={} seed={} case={} build={} signatures={:?}", prop, tier, seed, case, variant, recorded);
+            let runs = 10;
+            let mut reproduced = 0;
+            let me = std::env::current_exe().unwrap();
+            let exe = me.parent().unwrap().parent().unwrap().join(&variant).join("vmon");
+            for k in 0..runs {
+                let outfile = me.parent().unwrap().parent().unwrap().join(format!("replay-{}-{}.jsonl", std::process::id(), k));
+                let _ = std::fs::remove_file(&outfile);
+                let mut child = std::process::Command::new(&exe)
+                    .args(["worker", prop, &tier, &seed.to_string(), &case.to_string(), "1", &(case + 1).to_string()])
+                    .arg(&outfile)
+                    .arg(&variant)
+                    .stdout(std::process::Stdio::null())
+                    .stderr(std::process::Stdio::null())
+                    .spawn()
+                    .expect("spawn");
+                let t0 = std::time::Instant::now();
+                let mut finished = false;
+                while t0.elapsed().as_secs() < 900 {
+                    if let Ok(Some(_)) = child.try_wait() {
+                        finished = true;
+                        break;
+                    }
+                    std::thread::sleep(std::time::Duration::from_millis(50));
+                }
+                if !finished {
+                    let _ = child.kill();
+                    let _ = child.wait();
+                }
+                let text = std::fs::read_to_string(&outfile).unwrap_or_default();
+                let _ = std::fs::remove_file(&outfile);
+                let mut sigs: Vec<String> = Vec::new();
+                let mut ended = false;
+                for l in text.lines() {
+                    if let Ok(v) = serde_json::from_str::<serde_json::Value>(l) {
+                        if v["t"] == "end" {
+                            ended = true;
+                            for x in v["viols"].as_array().map(|a| a.as_slice()).unwrap_or(&[]) {
+                                if x["prop"].as_str() == Some(prop.as_str()) {
+                                    sigs.push(x["sig"].as_str().unwrap_or("").to_string());
+                                }
+                            }
+                        }
+                    }
+                }
+                if !ended {
+                    sigs.push(if finished { "process-died".to_string() } else { "no-return-within-15-minutes".to_string() });
+                }
+                sigs.sort();
+                sigs.dedup();
+                println!("run {}: {}", k + 1, if sigs.is_empty() { "held".to_string() } else { format!("violated {:?}", sigs) });
+                if !sigs.is_empty() {
+                    reproduced += 1;
+                }
+            }
+            println!("reproduced in {} of {} re-executions (the solver is nondeterministic through hash seeds and thread scheduling)", reproduced, runs);
+            if reproduced > 0 {
+                println!("VIOLATION property={} replay={}", prop, args[3]);
+                std::process::exit(1);
+            }
+            std::process::exit(0);
         }
         "gen" => {
             // vmon gen <profile> <seed> <max_dep>: print one instance (debugging aid)
